@@ -79,6 +79,9 @@ Proof.
     + intros H. split; [apply (H O); cbn; lia| intros i Hi; apply (H (S i)); cbn; lia].
 Qed.
 
+Lemma veq_null_l u y : veq u VNull y = is_null y.
+Proof. destruct y; reflexivity. Qed.
+
 Lemma veq_null_r u x : veq u x VNull = is_null x.
 Proof. rewrite veq_sym. destruct x; reflexivity. Qed.
 
@@ -106,6 +109,9 @@ Proof.
       * intros [H1 H2] [|i]; cbn [nth]; [assumption| apply H2].
       * intros H. split; [apply (H O)| intros i; apply (H (S i))].
 Qed.
+
+Lemma data_eq_cons' x r y s : data_eq (x :: r) (y :: s) = (x =? y) && data_eq r s.
+Proof. reflexivity. Qed.
 
 (* ------------------------------------------------------------------ element views *)
 Lemma totalSize_prim w : prim_width w -> totalSize (mkOS w 0) = w.
